@@ -308,7 +308,7 @@ class AsyncRun:
                     gs, ss = self.graph.step(gs)
                 obs.append(self._obs(ss))
         self.graph.stop()
-        rec = self.graph.get_record()
+        rec = safe_get_record(self.graph)
         return rec, obs, gs
 
     def _obs(self, ss):
@@ -319,30 +319,103 @@ class AsyncRun:
         return dict(seq=int(ss.seq), ts=float(ss.ts), state=int(ss.state.s), inputs=ins, rng=[int(x) for x in onp.asarray(ss.rng).reshape(-1)])
 
 
-def delay_streams(run: AsyncRun, n=100):
-    """The exact delay samples the async runtime will draw (same calls as _reset / push_phase_shift / push_ts_input)."""
+class _Rec:
+    def __init__(self, nodes):
+        self.nodes = nodes
+
+
+class _EmptySteps:
+    seq = []
+    eps = []
+    ts_start = []
+    ts_end = []
+    delay = []
+    rng = None
+    state = None
+    output = None
+    inputs = None
+
+
+class _EmptyNodeRecord:
+    steps = _EmptySteps()
+    inputs = None
+
+
+class _EmptyMsgs:
+    seq_out = []
+    seq_in = []
+    ts_sent = []
+    ts_recv = []
+    delay = []
+
+
+class _InputRec:
+    def __init__(self, messages):
+        self.messages = messages
+
+
+class _NodeRec:
+    def __init__(self, steps, inputs):
+        self.steps, self.inputs = steps, inputs
+
+
+def safe_get_record(graph):
+    """graph.get_record(), except that a node that has not executed a single step, or a connection that has not
+    delivered a single message to an executed step (get_record raises a bare TypeError from tree_map for both),
+    yields an empty record instead of an exception. (Robustness gap of rex outside the 20 properties; see DESIGN.)"""
     import jax
+    import numpy as onp
+
+    recs = {}
+    for name, w in graph._async_nodes.items():
+        try:
+            recs[name] = w.get_record()
+            continue
+        except TypeError:
+            pass
+        if w._record_steps is not None and len(w._record_steps) > 0:
+            to_array = lambda *x: onp.array(x[:-1]) if (len(x) > 0 and x[-1] is None) else onp.array(x)
+            steps = w._record.steps if w._record.steps is not None else jax.tree_util.tree_map(to_array, *w._record_steps)
+            last = steps.seq[-1] if len(steps.seq) > 0 else -1
+        else:
+            steps, last = _EmptySteps(), -1
+        inputs = {}
+        for i, c in w.inputs.items():
+            try:
+                inputs[c.connection.output_node.name] = c.get_record(last)
+            except TypeError:
+                inputs[c.connection.output_node.name] = _InputRec(_EmptyMsgs())
+        recs[name] = _NodeRec(steps, inputs)
+    return _Rec(recs)
+
+
+def delay_streams(run: AsyncRun, n=100, gs0=None):
+    """The exact delay samples the async runtime will draw: the wrappers' own jitted reset/sample functions,
+    called exactly as _reset / push_phase_shift / push_ts_input call them (a non-jitted call of the same
+    distribution can differ in the last bits)."""
+    import jax.numpy as jnp
     import jax.random as rnd
     import numpy as onp
 
+    gs0 = gs0 or run.gs0
     out = dict(comp={}, comm={})
-    for name, node in run.nodes.items():
-        rng = run.gs0.rng[name]
-        ds = node.delay_dist.reset(rng)
+    for name, w in run.graph._async_nodes.items():
+        rng = gs0.rng[name]
+        rng = jnp.array(rng) if isinstance(rng, onp.ndarray) else rng
+        ds = w._jit_reset(rng)
         xs = []
         while len(xs) < n:
-            ds, s = node.delay_dist.sample_pure(ds, shape=50)
-            xs += [float(v) for v in onp.asarray(s).tolist()]
+            ds, s = w._jit_sample(ds, shape=w._num_buffer)
+            xs += [float(v) for v in s.tolist()]
         out["comp"][name] = xs
-        rngs_in = rnd.split(rng, num=len(node.inputs))
-        for r, (iname, c) in zip(rngs_in, node.inputs.items()):
-            dd = run.gs0.inputs[name][iname].delay_dist
-            ds = dd.reset(r)
+        rngs_in = rnd.split(rng, num=len(w.inputs))
+        for r, cw in zip(rngs_in, w.inputs.values()):
+            ds = cw._jit_reset(r)
             xs = []
             while len(xs) < n:
-                ds, s = dd.sample_pure(ds, shape=50)
-                xs += [float(v) for v in onp.asarray(s).tolist()]
-            out["comm"][f"{c.output_node.name}->{name}"] = xs
+                ds, s = cw._jit_sample(ds, shape=cw._num_buffer)
+                xs += [float(v) for v in s.tolist()]
+            out["comm"][f"{cw.connection.output_node.name}->{name}"] = xs
     return out
 
 
@@ -381,3 +454,56 @@ def graph_to_dict(g):
         edges={f"{a}->{b}": dict(seq_out=onp.asarray(e.seq_out).astype(int).tolist(), seq_in=onp.asarray(e.seq_in).astype(int).tolist(), ts_recv=onp.asarray(e.ts_recv).astype(float).tolist())
                for (a, b), e in g.edges.items()},
     )
+
+
+# ------------------------------------------------------------------------------------------------
+# machine configuration for the Lean model (Driver "async.run")
+
+
+def fb(x):
+    import struct
+
+    return {"b": struct.unpack("<Q", struct.pack("<d", float(x)))[0]}
+
+
+def probe_draws(rng, n):
+    """draw_k of the probe's rng chain: rng_{k+1}, rng_draw = split(rng_k); draw = randint(rng_draw, 0, 1000)"""
+    import jax
+    import jax.numpy as jnp
+    import numpy as onp
+
+    def body(r, _):
+        new, rd = jax.random.split(r)
+        return new, jax.random.randint(rd, (), 0, 1000, dtype=jnp.int32)
+
+    _, ds = jax.lax.scan(body, rng, None, length=n)
+    return [int(x) for x in onp.asarray(ds)]
+
+
+def machine_cfg(run: AsyncRun, counts, user_steps, gs0=None, fuel=200000, policies=(0, 1, 7)):
+    gs0 = gs0 or run.gs0
+    spec = run.spec
+    names = [nd["name"] for nd in spec["nodes"]]
+    idx = {n: i for i, n in enumerate(names)}
+    cid = {(c["src"], c["dst"]): k for k, c in enumerate(spec["conns"])}
+    ds = delay_streams(run, n=max(200, max(counts.values()) + 60), gs0=gs0)
+    nodes = []
+    for nd in spec["nodes"]:
+        node = run.nodes[nd["name"]]
+        ins = [cid[(c.output_node.name, nd["name"])] for c in node.inputs.values()]
+        assert [c.output_node.name for c in node.inputs.values()] == sorted(c.output_node.name for c in node.inputs.values())
+        outs = [cid[(nd["name"], dst)] for dst in node.outputs.keys()]
+        k = counts.get(nd["name"], 0) + 14
+        nodes.append(dict(rate=fb(node.rate), phase=fb(float(node.phase)), advance=bool(node.advance), scheduling=1 if nd["scheduling"] == "PHASE" else 0,
+                          inputs=ins, outputs=outs, comp=[fb(x) for x in ds["comp"][nd["name"]]], init_state=int(gs0.state[nd["name"]].s),
+                          w=int(gs0.params[nd["name"]].w), draws=probe_draws(gs0.rng[nd["name"]], k + 5), max_ticks=k))
+    conns = []
+    for c in spec["conns"]:
+        conn = run.nodes[c["dst"]].inputs[c["src"]]
+        import numpy as onp
+
+        conns.append(dict(src=idx[c["src"]], dst=idx[c["dst"]], blocking=bool(c["blocking"]), skip=bool(c["skip"]), jitter=1 if c["jitter"] == "BUFFER" else 0,
+                          window=int(c["window"]), phase=fb(float(conn.phase)), rate_out=fb(conn.output_node.rate), comm=[fb(x) for x in ds["comm"][f"{c['src']}->{c['dst']}"]],
+                          init_data=int(onp.asarray(gs0.inputs[c["dst"]][c["src"]].data.y)[0]), phase_node=fb(conn.input_node.phase), phase_in=fb(conn.output_node.phase),
+                          rate_node=fb(conn.input_node.rate), rate_in=fb(conn.output_node.rate)))
+    return dict(cmd="async.run", nodes=nodes, conns=conns, sup=idx[spec["supervisor"]], user_steps=int(user_steps), fuel=fuel, policies=list(policies))
